@@ -100,34 +100,13 @@ def annClass (σ : State) (a : Announcement) : Outcome :=
   else if MAX_TIME_DELTA < a.timestamp - σ.now then .disconnect .invalidTimestamp
   else .ok
 
-/-- Unless it panics (which `handleAnnouncement_ok` excludes under the invariant), an announcement is
-classified by `annClass`, whatever the oracle says, and the shape of the state is unchanged. -/
-theorem handleAnnouncement_class (env : Env) (σ : State) (a : Announcement) :
-    (∃ s, (handleAnnouncement Code.current env σ a).1 = .panic s) ∨
-    ((handleAnnouncement Code.current env σ a).1 = annClass σ a ∧
-      SameShape σ (handleAnnouncement Code.current env σ a).2) := by
-  unfold handleAnnouncement annClass
-  by_cases h1 : (!a.sigOk) = true
-  · rw [if_pos h1, if_pos h1]; exact .inr ⟨rfl, .refl _⟩
-  rw [if_neg h1, if_neg h1]
-  by_cases h2 : a.announcer = σ.self
-  · rw [if_pos h2, if_pos h2]; exact .inr ⟨rfl, .refl _⟩
-  rw [if_neg h2, if_neg h2]
-  by_cases h3 : a.timestamp = 0
-  · have : (Code.current.zeroTimestampGuard && a.timestamp == 0) = true := by simp [Code.current, h3]
-    rw [if_pos this, if_pos h3]; exact .inr ⟨rfl, .refl _⟩
-  have h3' : ¬ (Code.current.zeroTimestampGuard && a.timestamp == 0) = true := by simp [Code.current, h3]
-  rw [if_neg h3']
-  simp only [if_neg h3]
-  by_cases h4 : MAX_TIME_DELTA < a.timestamp - σ.now
-  · rw [if_pos h4, if_pos h4]; exact .inr ⟨rfl, .refl _⟩
-  rw [if_neg h4, if_neg h4]
-  by_cases h5 : unknownIgnored env a = true
-  · rw [if_pos h5]; exact .inr ⟨rfl, .refl _⟩
-  rw [if_neg h5]
-  by_cases h6 : (!env.announcedFresh) = true
-  · rw [if_pos h6]; exact .inr ⟨rfl, .refl _⟩
-  rw [if_neg h6]
+theorem stored_shape (σ : State) (a : Announcement) : SameShape σ (stored σ a) :=
+  ⟨rfl, rfl, rfl, fun _ => rfl⟩
+
+theorem processStored_class (env : Env) (σ : State) (a : Announcement) :
+    (∃ s, (processStored env σ a).1 = .panic s) ∨
+    ((processStored env σ a).1 = .ok ∧ SameShape σ (processStored env σ a).2) := by
+  unfold processStored
   cases a.kind with
   | node seed => exact .inr ⟨rfl, .refl _⟩
   | inventory rids =>
@@ -162,6 +141,38 @@ theorem handleAnnouncement_class (env : Env) (σ : State) (a : Announcement) :
       | error e => exact .inl ⟨e, rfl⟩
       | ok σ' => exact .inr ⟨rfl, fetch_shape σ rid remote.id _ σ' hf⟩
 
+/-- Unless it panics (which `handleAnnouncement_ok` excludes under the invariant), an announcement is
+classified by `annClass`, whatever the oracle says, and the shape of the state is unchanged. -/
+theorem handleAnnouncement_class (c : Code) (hc : c.msgLike) (env : Env) (σ : State) (a : Announcement) :
+    (∃ s, (handleAnnouncement c env σ a).1 = .panic s) ∨
+    ((handleAnnouncement c env σ a).1 = annClass σ a ∧
+      SameShape σ (handleAnnouncement c env σ a).2) := by
+  unfold handleAnnouncement annClass
+  by_cases h1 : (!a.sigOk) = true
+  · rw [if_pos h1, if_pos h1]; exact .inr ⟨rfl, .refl _⟩
+  rw [if_neg h1, if_neg h1]
+  by_cases h2 : a.announcer = σ.self
+  · rw [if_pos h2, if_pos h2]; exact .inr ⟨rfl, .refl _⟩
+  rw [if_neg h2, if_neg h2]
+  by_cases h3 : a.timestamp = 0
+  · have : (c.zeroTimestampGuard && a.timestamp == 0) = true := by simp [hc.1, h3]
+    rw [if_pos this, if_pos h3]; exact .inr ⟨rfl, .refl _⟩
+  have h3' : ¬ (c.zeroTimestampGuard && a.timestamp == 0) = true := by simp [hc.1, h3]
+  rw [if_neg h3']
+  simp only [if_neg h3]
+  by_cases h4 : MAX_TIME_DELTA < a.timestamp - σ.now
+  · rw [if_pos h4, if_pos h4]; exact .inr ⟨rfl, .refl _⟩
+  rw [if_neg h4, if_neg h4]
+  by_cases h5 : unknownIgnored env σ a = true
+  · rw [if_pos h5]; exact .inr ⟨rfl, .refl _⟩
+  rw [if_neg h5]
+  by_cases h6 : (!(env.announcedFresh && isNewer σ a)) = true
+  · rw [if_pos h6]; exact .inr ⟨rfl, .refl _⟩
+  rw [if_neg h6]
+  rcases processStored_class env (stored σ a) a with hp | ⟨ho, hs⟩
+  · exact .inl hp
+  · exact .inr ⟨ho, (stored_shape σ a).trans hs⟩
+
 theorem SameShape.symm {a b : State} (h : SameShape a b) : SameShape b a :=
   ⟨h.1.symm, h.2.1.symm, h.2.2.1.symm, fun k => (h.2.2.2 k).symm⟩
 
@@ -170,20 +181,20 @@ def dispClass (σ : State) : Msg → Outcome
   | .announcement a => annClass σ a
   | _ => .ok
 
-theorem dispatch_class (env : Env) {σ : State} (h : Inv σ) (remote : Nid) (peer : Session)
+theorem dispatch_class (c : Code) (hc : c.msgLike) (env : Env) {σ : State} (h : Inv σ) (remote : Nid) (peer : Session)
     (hp : σ.sessions remote = some peer) (m : Msg) :
-    (dispatch Code.current env σ remote peer m).1 = dispClass σ m ∧
-    SameShape σ (dispatch Code.current env σ remote peer m).2 := by
-  have hgood := dispatch_ok env h remote peer hp m
+    (dispatch c env σ remote peer m).1 = dispClass σ m ∧
+    SameShape σ (dispatch c env σ remote peer m).2 := by
+  have hgood := dispatch_ok c hc env h remote peer hp m
   unfold dispatch dispClass at *
   cases m with
   | announcement a =>
     simp only at hgood ⊢
-    rcases handleAnnouncement_class env σ a with ⟨s, hs⟩ | hc
+    rcases handleAnnouncement_class c hc env σ a with ⟨s, hs⟩ | hcl
     · exact absurd hs (hgood.1 s)
-    · exact hc
+    · exact hcl
   | subscribe since until_ =>
-    simp only [Code.current, Bool.false_and, Bool.false_eq_true, if_false]
+    simp only [hc.2, Bool.false_and, Bool.false_eq_true, if_false]
     refine ⟨?_, SameShape.updSession σ remote peer _ hp rfl⟩
     first | rfl | trivial
   | info => exact ⟨rfl, .refl _⟩
@@ -249,9 +260,9 @@ theorem limit_eq (env : Env) {σ : State} (h : Inv σ) (remote : Nid) (p : Sessi
       simp [this]
 
 /-- **One message, any oracle**: the outcome is `msgClass`, and the resulting state has the shape of `preState`. -/
-theorem handleMessage_class (env : Env) {σ : State} (h : Inv σ) (remote : Nid) (m : Msg) :
-    (handleMessage Code.current env σ remote m).1 = msgClass env.limited σ remote m ∧
-    SameShape (preState env.limited σ remote) (handleMessage Code.current env σ remote m).2 := by
+theorem handleMessage_class (c : Code) (hc : c.msgLike) (env : Env) {σ : State} (h : Inv σ) (remote : Nid) (m : Msg) :
+    (handleMessage c env σ remote m).1 = msgClass env.limited σ remote m ∧
+    SameShape (preState env.limited σ remote) (handleMessage c env σ remote m).2 := by
   unfold handleMessage msgClass preState
   cases hs : σ.sessions remote with
   | none => exact ⟨rfl, .refl _⟩
@@ -281,14 +292,14 @@ theorem handleMessage_class (env : Env) {σ : State} (h : Inv σ) (remote : Nid)
       simp at hrid
     cases hst : peer.state with
     | disconnected => exact ⟨rfl, .refl _⟩
-    | connected fs aw => exact dispatch_class env h1 remote peer hs m
+    | connected fs aw => exact dispatch_class c hc env h1 remote peer hs m
     | initial =>
       simp only
-      have := dispatch_class env hconn remote peer.toConnected (by simp [upd_same]) m
+      have := dispatch_class c hc env hconn remote peer.toConnected (by simp [upd_same]) m
       exact ⟨this.1, this.2⟩
     | attempted =>
       simp only
-      have := dispatch_class env hconn remote peer.toConnected (by simp [upd_same]) m
+      have := dispatch_class c hc env hconn remote peer.toConnected (by simp [upd_same]) m
       exact ⟨this.1, this.2⟩
 
 /-! ### the class and the next shape depend on the shape only -/
@@ -375,9 +386,9 @@ theorem preState_of_shape {σ τ : State} (h : SameShape σ τ) (l : Bool) (remo
         | (exfalso; omega)
         | (simp only [e, e']; first | exact conn | exact base)
 
-theorem connectedInbound_shape {σ τ : State} (h : SameShape σ τ) (r : Nid) (ho : Host) (ro p : Bool) :
-    SameShape (connectedInbound σ r ho ro p) (connectedInbound τ r ho ro p) := by
-  unfold connectedInbound
+theorem connectedSessions_shape {σ τ : State} (h : SameShape σ τ) (r : Nid) (ho : Host) (ro p : Bool) :
+    SameShape (connectedSessions σ r ho ro p) (connectedSessions τ r ho ro p) := by
+  unfold connectedSessions
   rcases sessions_of_shape h r with ⟨hp, hq⟩ | ⟨s, t, hp, hq, hv⟩
   · simp only [hp, hq]
     refine ⟨h.1, h.2.1, h.2.2.1, ?_⟩
@@ -416,28 +427,38 @@ theorem disconnected_shape {σ τ : State} (h : SameShape σ τ) (r : Nid) :
       · subst hk; simp [upd_same]
       · simp only [upd_other _ hk]; exact h.2.2.2 k
 
+theorem restarted_shape (σ τ : State) (h : SameShape σ τ) (cfg : List (Nid × Host × Bool)) :
+    SameShape (restarted σ cfg) (restarted τ cfg) :=
+  ⟨h.1, h.2.1, rfl, fun _ => rfl⟩
+
 /-- **One step, two oracles**: from states of the same shape, oracles that agree on `limited` give the same
-outcome and states of the same shape. -/
+outcome and states of the same shape (code with the repaired `Service::initial`). -/
 theorem step_env_irrelevant (e1 e2 : Env) (hl : e1.limited = e2.limited) {σ τ : State}
     (hσ : Inv σ) (hτ : Inv τ) (h : SameShape σ τ) (op : Op) :
-    (step Code.current e1 σ op).1 = (step Code.current e2 τ op).1 ∧
-    SameShape (step Code.current e1 σ op).2 (step Code.current e2 τ op).2 := by
+    (step Code.fixed e1 σ op).1 = (step Code.fixed e2 τ op).1 ∧
+    SameShape (step Code.fixed e1 σ op).2 (step Code.fixed e2 τ op).2 := by
   cases op with
   | recv r m =>
-    obtain ⟨c1, s1⟩ := handleMessage_class e1 hσ r m
-    obtain ⟨c2, s2⟩ := handleMessage_class e2 hτ r m
+    obtain ⟨c1, s1⟩ := handleMessage_class Code.fixed Code.fixed_msgLike e1 hσ r m
+    obtain ⟨c2, s2⟩ := handleMessage_class Code.fixed Code.fixed_msgLike e2 hτ r m
     simp only [step]
     refine ⟨?_, ?_⟩
     · rw [c1, c2, hl, (msgClass_of_shape h e2.limited r m).1]
     · rw [hl] at s1
       exact (s1.symm.trans (preState_of_shape h e2.limited r)).trans s2
-  | connectIn r ho ro p => exact ⟨rfl, connectedInbound_shape h r ho ro p⟩
+  | connectIn r ho ro p =>
+    obtain ⟨t1, ht1⟩ := initialSince_fixed σ
+    obtain ⟨t2, ht2⟩ := initialSince_fixed τ
+    simp only [step, connectedInbound, ht1, ht2]
+    refine ⟨?_, connectedSessions_shape h r ho ro p⟩
+    first | rfl | trivial
   | disconnect r => exact ⟨rfl, disconnected_shape h r⟩
+  | restart cfg => exact ⟨rfl, restarted_shape σ τ h cfg⟩
 
 /-- **Any history, two oracle sequences** agreeing on `limited`: the same outcomes. -/
 theorem run_env_irrelevant (envs1 envs2 : Nat → Env) (hl : ∀ i, (envs1 i).limited = (envs2 i).limited)
     (ops : List Op) : ∀ (σ τ : State) (i : Nat), Inv σ → Inv τ → SameShape σ τ →
-    run Code.current envs1 σ ops i = run Code.current envs2 τ ops i := by
+    run Code.fixed envs1 σ ops i = run Code.fixed envs2 τ ops i := by
   induction ops with
   | nil => intro σ τ i _ _ _; rfl
   | cons op ops ih =>
@@ -446,9 +467,9 @@ theorem run_env_irrelevant (envs1 envs2 : Nat → Env) (hl : ∀ i, (envs1 i).li
     obtain ⟨np1, i1⟩ := step_ok (envs1 i) hσ op
     obtain ⟨np2, i2⟩ := step_ok (envs2 i) hτ op
     unfold run
-    cases h1 : step Code.current (envs1 i) σ op with
+    cases h1 : step Code.fixed (envs1 i) σ op with
     | mk o1 σ1 =>
-      cases h2 : step Code.current (envs2 i) τ op with
+      cases h2 : step Code.fixed (envs2 i) τ op with
       | mk o2 τ1 =>
         rw [h1, h2] at ho hs
         rw [h1] at np1 i1
